@@ -18,6 +18,7 @@ class View:
         self.trace = res.trace
         self.ids = prog.ids()
         self.idx = {s: i for i, s in enumerate(self.ids)}
+        self.args = args
         self.ref = ref if ref is not None else prog.ref_run(sel, pre, debug_on, args)
         self.status = {i: self.ref[i][0] for i in self.ref}
         self.src_lines, self.src_file = src_lines or {}, src_file
@@ -116,6 +117,8 @@ class View:
     def ref_param(self, k: int):
         from .gprog import NODEFAULT
         nm, d = self.prog.params[k]
+        if self.args is not None and k < len(self.args):
+            return ("const", self.args[k])
         return ("const", d) if d != NODEFAULT else ("missing", nm)
 
     def observed_before(self, d: int, t: int) -> bool:
